@@ -55,7 +55,7 @@ Inductive req_outcome :=
 
 Inductive cdata_outcome :=
 | DNothing
-| DForward (b : bytes) (upg : bool)   (* pipelined request complete: rebuilt bytes go upstream; upg = it is a connection upgrade *)
+| DForward (bs : list bytes) (upg : bool)   (* pipelined request(s) complete: these rebuilt requests go upstream; upg = the last one is a connection upgrade *)
 | DReply (pieces : list bytes)        (* local plugin answers *)
 | DProto (resp : list bytes)          (* HttpProtocolException, e.response() = resp ([] = None) *)
 | DRaise.                             (* any other exception *)
@@ -179,7 +179,7 @@ Definition on_client_data (ev : event) (s : hstate) (raw : bytes) : hstate * opt
           if is_tunnel s then (set_upstream (Some (queue raw u)) s0, Some false)
           else if pipeline_upgrade s then (set_upstream (Some (queue raw u)) s0, Some false)
           else match cdata ev with
-               | DForward b upg => (set_pipeline_upgrade upg (set_upstream (Some (queue b u)) s0), Some false)
+               | DForward bs upg => (set_pipeline_upgrade upg (set_upstream (Some (queue_all bs u)) s0), Some false)
                | DProto _ => (s0, Some true)          (* parser's HttpProtocolException: response() is None *)
                | DRaise => (s0, None)
                | DNothing => (s0, Some false)
